@@ -3,7 +3,7 @@ import harness
 from facts import (norm, lit_value, call_name, short, subnodes, matches_on_type, lit_table, str_lits_in,
                    field_reads)
 from prov import Prov, has_field, has_call
-from templates import field_coverage, LOSSY_OR_REORDERING
+from templates import field_coverage, LOSSY_OR_REORDERING, scope_fns, enclosing_contexts
 
 TRAIT = "nitrogql_printer::graphql_printer::GraphQLPrinter"
 A = "nitrogql_ast::"
@@ -43,8 +43,25 @@ def printer_scope(P):
     return sorted(p for p in reach if "nitrogql_printer::graphql_printer::" in p), impls
 
 
+def string_printer(P):
+    """the GraphQL string-literal printer, by role: the one function of the GraphQL printer that dispatches on a `char`
+    (falls back to its pinned name)"""
+    scope, _ = printer_scope(P)
+    cands = [P.fns[p] for p in scope if not P.fns[p].derived and matches_on_type(P.fns[p], "char")]
+    if len(cands) == 1:
+        return cands[0]
+    return P.fn("graphql_printer::utils::print_string")
+
+
+def buffer_field(P):
+    """JsStringWriter's output buffer, by role: its only `&mut String` field (falls back to the pinned name)"""
+    adt = P.adt("sourcemap_writer::js_string_writer::JsStringWriter")
+    c = [f for f, t in adt.field_types().items() if t.replace(" ", "").startswith("&mut") and t.endswith("String")]
+    return adt.path, (c[0] if len(c) == 1 else "buffer")
+
+
 def r16a(P, R):
-    ps = P.fn("graphql_printer::utils::print_string")
+    ps = string_printer(P)
     ms = matches_on_type(ps, "char")
     R.floor("R16-a", "char matches in print_string", len(ms), 1)
     # oracle: GraphQL spec StringCharacter = SourceCharacter but not `"` or `\` or LineTerminator;
@@ -56,15 +73,15 @@ def r16a(P, R):
         control_guard = False
         for lits, guard, catch, arm in rows:
             for l in lits:
-                explicit[l] = arm
+                explicit.setdefault(l, []).append(arm)
             if guard and any((call_name(n) or "").endswith("is_control") for n in subnodes(arm["guard"])):
                 control_guard = True
         for ch in need:
             covered = ch in explicit or (control_guard and ch in "\n\r")
             esc = True
             if ch in explicit:
-                lits = str_lits_in(explicit[ch]["body"])
-                esc = any(s.startswith("\\") for s in lits)
+                # every arm that can take this character (guarded or not) writes an escape
+                esc = all(any(s.startswith("\\") for s in str_lits_in(a_["body"])) for a_ in explicit[ch])
             R.check("R16-a", "graphql-string:%s" % CHNAME[ch], covered and esc,
                     "character %r is escaped in single-line GraphQL strings" % ch,
                     "print_string (single-line branch) has no escaping arm for %r, which the grammar's "
@@ -89,53 +106,65 @@ def r16a(P, R):
             else:
                 R.undecided("R16-a", "graphql-string:control-escape", "fixed-width \\uXXXX form: width not decoded", loc=ps.loc())
     # block string: the `\"""` escape literal is pushed
-    R.check("R16-a", "graphql-blockstring:triple-quote", '\\"""' in str_lits_in(ps.body),
-            'block strings escape `"""` as `\\"""`', 'print_string never emits the `\\"""` escape for block strings', loc=ps.loc())
+    block_lits = [l for g in scope_fns(P, ps) for l in str_lits_in(g.body)]
+    R.check("R16-a", "graphql-blockstring:triple-quote", '\\"""' in block_lits,
+            'block strings escape `"""` as `\\"""`', 'neither %s nor a helper it calls ever emits the `\\"""` escape for block strings' % short(ps.path), loc=ps.loc())
     # JS template literal
-    jw = P.fn("<sourcemap_writer::js_string_writer::JsStringWriter as sourcemap_writer::writer::SourceMapWriter>::write")
+    jwrite = P.fn("<sourcemap_writer::js_string_writer::JsStringWriter as sourcemap_writer::writer::SourceMapWriter>::write")
+    # the escaping function, by role: the JsStringWriter function that dispatches on a `char` (today `write` itself; a helper
+    # shared by write and write_for after an extraction)
+    esc = [f for f in P.fns.values() if f.path.startswith(("sourcemap_writer::js_string_writer::", "<sourcemap_writer::js_string_writer::"))
+           and "::tests" not in f.path and not f.derived and matches_on_type(f, "char")]
+    jw = esc[0] if len(esc) == 1 else jwrite
     ms = matches_on_type(jw, "char")
     R.floor("R16-a", "char matches in JsStringWriter::write", len(ms), 1)
     for m in ms:
         explicit = {}
         for lits, guard, catch, arm in lit_table(m):
             for l in lits:
-                explicit[l] = arm
+                explicit.setdefault(l, []).append(arm)
         for ch, why in (("\\", "backslash starts an escape in template literals"),
                         ("`", "backtick terminates the template literal"),
                         ("{", "`${` starts a substitution")):
-            ok = ch in explicit and any(s.startswith("\\") for s in str_lits_in(explicit[ch]["body"]))
+            # `{` needs escaping only after `$`: one of its arms (or branches) escapes; the others must escape in every arm
+            quant = any if ch == "{" else all
+            ok = ch in explicit and quant(any(s.startswith("\\") for s in str_lits_in(a_["body"])) for a_ in explicit[ch])
             R.check("R16-a", "js-template:%s" % CHNAME[ch], ok, "%r is escaped (%s)" % (ch, why),
                     "JsStringWriter::write has no escaping arm for %r (%s)" % (ch, why), loc=jw.loc())
         # the `{` escape must depend on the previous character being `$` and the flag must be updated from c == '$'
         if "{" in explicit:
-            body_atoms = [n for n in subnodes(explicit["{"]["body"]) if n.get("k") == "If"]
-            R.check("R16-a", "js-template:dollar-flag", bool(body_atoms), "`{` is escaped only after `$`",
+            R.check("R16-a", "js-template:dollar-flag", bool(brace_conditions(m)), "`{` is escaped only after `$`",
                     "the `{` arm is not conditional on the previous `$`", loc=jw.loc())
     # the `$` flag is recomputed from the current character alone (`$$` followed by `{` must still be escaped)
-    pvj = Prov(jw)
-    flag_ids = set()
+    flag_ids, cond_lits = set(), set()
     for m in ms:
-        for lits, guard, catch, arm in lit_table(m):
-            if "{" in lits:
-                for i_ in subnodes(arm["body"]):
-                    if i_.get("k") == "If" and i_["cond"].get("k") == "Path" and "local" in i_["cond"]:
-                        flag_ids.add(i_["cond"]["local"])
+        for c in brace_conditions(m):
+            flag_ids |= {x["local"] for x in subnodes(c) if x.get("k") == "Path" and "local" in x}
+            cond_lits |= {x.get("v") for x in subnodes(c) if x.get("k") == "Lit"}
     flag_assigns = [n for n in jw.walk() if n.get("k") == "Assign" and n["l"].get("k") == "Path" and n["l"].get("local") in flag_ids]
     R.floor("R16-a", "dollar-flag updates", len(flag_assigns), 1)
     for n in flag_assigns:
         refs = [x for x in subnodes(n["r"]) if x.get("k") == "Path" and x.get("local") in flag_ids]
         lits = [x.get("v") for x in subnodes(n["r"]) if x.get("k") == "Lit"]
-        R.check("R16-a", "js-template:dollar-flag-update", not refs and lits == ["$"],
-                "flag := (c == '$'), independent of its previous value",
-                "the `$`-seen flag is updated from %s: after an even run of `$` a following `{` is written unescaped and `${` "
-                "becomes a live substitution" % ("its own previous value" if refs else lits), loc=jw.loc())
+        if refs:
+            R.violated("R16-a", "js-template:dollar-flag-update", "the `$`-seen flag is updated from its own previous value: after an even run of `$` a "
+                       "following `{` is written unescaped and `${` becomes a live substitution", loc=jw.loc())
+        elif lits == ["$"] or (not lits and "$" in cond_lits):
+            # flag := (c == '$'), or the previous character itself is remembered and compared with '$' where `{` is written
+            R.holds("R16-a", "js-template:dollar-flag-update", "what is remembered depends on the current character only", loc=jw.loc())
+        elif lits in (["true"], ["false"], [True], [False]):
+            R.undecided("R16-a", "js-template:dollar-flag-update", "the flag is set by constants in separate branches; not decided", loc=jw.loc())
+        else:
+            R.violated("R16-a", "js-template:dollar-flag-update", "the `$`-seen flag is updated from %s, not from `c == '$'`" % lits, loc=jw.loc())
     # every text path goes through `write`
     wf = P.fn("<sourcemap_writer::js_string_writer::JsStringWriter as sourcemap_writer::writer::SourceMapWriter>::write_for")
-    R.check("R16-a", "js-template:write_for", jw.path in P.callees_of(wf)[0], "write_for delegates to the escaping write",
-            "JsStringWriter::write_for does not go through the escaping write", loc=wf.loc())
+    for entry, what in ((jwrite, "write"), (wf, "write_for")):
+        R.check("R16-a", "js-template:%s" % what, jw.path in P.reachable([entry]), "%s goes through the escaping character loop" % what,
+                "JsStringWriter::%s does not go through the escaping write" % what, loc=entry.loc())
     writers = []
+    buf = buffer_field(P)
     for f in P.fns.values():
-        if ("sourcemap_writer::js_string_writer::JsStringWriter", "buffer") in field_reads(f) and "::tests" not in f.path:
+        if buf in field_reads(f) and "::tests" not in f.path:
             writers.append(f.path)
     allowed = {jw.path, P.fn("js_string_writer::JsStringWriter::new").path,
                P.fn("<sourcemap_writer::js_string_writer::JsStringWriter as core::ops::drop::Drop>::drop").path}
@@ -144,10 +173,21 @@ def r16a(P, R):
             % sorted(set(writers) - allowed))
     new = P.fn("js_string_writer::JsStringWriter::new")
     drop = P.fn("<sourcemap_writer::js_string_writer::JsStringWriter as core::ops::drop::Drop>::drop")
-    R.check("R16-d", "template-open", any(s.startswith("`") for s in str_lits_in(new.body)),
+    R.check("R16-d", "template-open", any(s.startswith("`") for g in scope_fns(P, new) for s in str_lits_in(g.body)),
             "JsStringWriter::new opens the template literal", "JsStringWriter::new does not open a backtick", loc=new.loc())
-    R.check("R16-d", "template-close", any(n.get("k") == "Lit" and n.get("v") == "`" for n in drop.walk()),
+    R.check("R16-d", "template-close", any(n.get("k") == "Lit" and str(n.get("v", "")).endswith("`") for g in scope_fns(P, drop) for n in g.walk()),
             "Drop closes the template literal", "Drop for JsStringWriter does not push the closing backtick", loc=drop.loc())
+
+
+def brace_conditions(m):
+    """conditions under which the `{` arm(s) of a char match escape: arm guards and `if` conditions in the arm body"""
+    out = []
+    for lits, guard, catch, arm in lit_table(m):
+        if "{" in lits:
+            if guard:
+                out.append(arm["guard"])
+            out.extend(i_["cond"] for i_ in subnodes(arm["body"]) if i_.get("k") == "If")
+    return out
 
 
 def r16b(P, R):
@@ -185,7 +225,11 @@ def r16b(P, R):
         if not found:
             # ImportTarget is matched inside ImportDefinition's impl
             hit = [f for f in P.fns.values() if "graphql_printer" in f.path and matches_on(f, enum)]
-            R.check("R16-b", "variants:" + enum.split("::")[-1], bool(hit), "matched", "no printer matches over %s" % enum)
+            if hit:
+                R.holds("R16-b", "variants:" + enum.split("::")[-1], "matched")
+            else:
+                R.undecided("R16-b", "variants:" + enum.split("::")[-1], "no `match` over %s in the GraphQL printer (its variants may be told apart "
+                            "another way; field coverage above still applies)" % enum)
 
 
 def r16e(P, R):
@@ -204,9 +248,21 @@ def r16e(P, R):
                     R.violated("R16-e", "lossy:%s:%s" % (short(f.path), c["method"]),
                                "%s applies `%s` while printing: a component of the document can be dropped or reordered"
                                % (f.path, c["method"]), loc=f.loc())
-        exits = [x for x in f.walk() if (x.get("k") == "Break" and "desugar" not in (x.get("x") or "")) or x.get("k") == "Ret"]
-        if exits and f.name == "print_graphql":
-            R.violated("R16-e", "early-exit:" + short(f.path), "%s leaves a printing function/loop early" % f.path, loc=f.loc())
+        if f.name == "print_graphql":
+            # leaving a loop over the components early drops the remaining ones; a `return` outside any loop (a guard before
+            # anything is printed, an early return replacing an else branch) is not evidence of loss
+            in_loop, other = [], []
+            for idx, (x, _) in enumerate(f.nodes()):
+                if (x.get("k") == "Break" and "desugar" not in (x.get("x") or "")) or (x.get("k") == "Ret" and "desugar" not in (x.get("x") or "")):
+                    ctx = [c_[0] for c_ in enclosing_contexts(f, idx)]
+                    closure_first = "closure" in ctx and ("loop" not in ctx or ctx.index("closure") < ctx.index("loop"))
+                    (in_loop if "loop" in ctx and not closure_first else other).append(x)
+            if in_loop:
+                R.violated("R16-e", "early-exit:" + short(f.path), "%s leaves the loop over the components it prints early: the remaining ones "
+                           "are dropped" % f.path, loc=f.loc())
+            elif other:
+                R.undecided("R16-e", "early-exit:" + short(f.path), "%s returns early outside any loop; whether something is left unprinted is "
+                            "not decided" % f.path, loc=f.loc())
     R.holds("R16-e", "lossy:none", "%d method calls inspected in the AST printer, none filters/reorders" % n)
     R.floor("R16-e", "method calls inspected", n, 300)
 
@@ -251,9 +307,35 @@ def r16f(P, R):
     R.floor("R16-f", "compact/multiline thresholds", n, 3)
 
 
+def builtin_remover(P, rg):
+    """the function that strips the nitrogql-only definitions before the server schema is printed, by role: the function of the
+    CLI crate reachable from run_generate that maps one `&TypeSystemDocument` to a `TypeSystemDocument` and filters by a name
+    literal (falls back to its pinned name)"""
+    named = P.fn("nitrogql_cli::builtins::remove_builtins", required=False)
+    if named is not None:
+        return named
+    doc = "nitrogql_ast::type_system::TypeSystemDocument"
+    cands = [g for g in scope_fns(P, rg) if g.kind == "Fn" and len(g.sig_inputs) == 1 and peel(g.sig_inputs[0]).startswith(doc)
+             and (g.sig_output or "").startswith(doc)
+             and any(n.get("k") == "Binary" and n.get("op") in ("!=", "==") and isinstance(lit_value(n["l"]) or lit_value(n["r"]), str) for n in g.walk())]
+    if len(cands) == 1:
+        return cands[0]
+    return P.fn("nitrogql_cli::builtins::remove_builtins")
+
+
+def peel(t):
+    t = (t or "").strip()
+    while t.startswith("&"):
+        t = t[1:].strip()
+        if t.startswith("mut "):
+            t = t[4:].strip()
+    return t
+
+
 def r16c(P, R):
     nb = P.fn("nitrogql_cli::builtins::nitrogql_builtins")
-    rb = P.fn("nitrogql_cli::builtins::remove_builtins")
+    rg = P.fn("nitrogql_cli::generate::run_generate")
+    rb = builtin_remover(P, rg)
     # names defined
     defined = set()
     for n in nb.walk():
@@ -264,32 +346,42 @@ def r16c(P, R):
                         if x.get("k") == "Lit" and x.get("lk") == "str":
                             defined.add(x["v"])
     compared = []
-    for n in rb.walk():
-        if n.get("k") == "Binary" and n.get("op") in ("!=", "=="):
-            for side in (n["l"], n["r"]):
-                v = lit_value(side)
-                if isinstance(v, str):
-                    compared.append((n.get("op"), v))
+    for g in scope_fns(P, rb):
+        for n in g.walk():
+            if n.get("k") == "Binary" and n.get("op") in ("!=", "=="):
+                for side in (n["l"], n["r"]):
+                    v = lit_value(side)
+                    if isinstance(v, str):
+                        compared.append((n.get("op"), v, g.path == rb.path))
     R.floor("R16-c", "nitrogql-only directive definitions", len(defined), 1)
     R.floor("R16-c", "name filters in remove_builtins", len(compared), 2)
-    for op, v in compared:
-        R.check("R16-c", "filter:%s" % v, v in defined and op == "!=",
+    for op, v, own in compared:
+        if v in defined and not (op == "!=" and own):
+            # `==` (or a comparison inside a helper predicate): kept or dropped depends on how the result is used
+            R.undecided("R16-c", "filter:%s" % v, "the comparison with `%s` is not a plain `!=` filter in %s; its polarity is not decided" % (v, rb.name), loc=rb.loc())
+            continue
+        R.check("R16-c", "filter:%s" % v, v in defined,
                 "filter keeps everything except `%s`" % v,
-                "remove_builtins filters by `%s %s`, but the nitrogql-only directives defined are %s" % (op, v, sorted(defined)),
+                "%s filters by `%s %s`, but the nitrogql-only directives defined are %s" % (rb.name, op, v, sorted(defined)),
                 loc=rb.loc())
     for d in defined:
-        R.check("R16-c", "covered:%s" % d, sum(1 for _, v in compared if v == d) >= 2,
-                "definition and applications of @%s are both removed" % d,
-                "@%s is defined as nitrogql-only but is not removed from both definitions and applications" % d, loc=rb.loc())
+        n_cmp = sum(1 for _, v, _ in compared if v == d)
+        if n_cmp >= 2:
+            R.holds("R16-c", "covered:%s" % d, "definition and applications of @%s are both removed" % d, loc=rb.loc())
+        elif len(compared) >= 2:
+            R.violated("R16-c", "covered:%s" % d, "@%s is defined as nitrogql-only but is not removed from both definitions and applications "
+                       "(names filtered: %s)" % (d, sorted(v for _, v, _ in compared)), loc=rb.loc())
+        else:
+            R.undecided("R16-c", "covered:%s" % d, "%s does not filter by comparing names with literals; not decided" % rb.name, loc=rb.loc())
     # the server schema is printed from remove_builtins(..) in both LoadedSchema arms, into a JsStringWriter
-    rg = P.fn("nitrogql_cli::generate::run_generate")
     pv = Prov(rg)
     calls = [n for n in rg.walk() if n.get("k") == "MethodCall" and n.get("method") == "print_graphql"]
     R.floor("R16-c", "server-schema print sites", len(calls), 2)
     for i, c in enumerate(calls):
-        a = pv.atoms(c["recv"])
-        R.check("R16-c", "server-route:%d" % i, has_call(a, "builtins::remove_builtins"),
-                "printed schema derives from remove_builtins(..)", "server schema is printed without remove_builtins", loc=rg.loc())
+        # what is printed passes through the remover — directly or inside a helper that prepares the document
+        a = pv.deep_atoms(c["recv"])
+        R.check("R16-c", "server-route:%d" % i, has_call(a, rb.path),
+                "printed schema derives from remove_builtins(..)", "server schema is printed without %s" % rb.name, loc=rg.loc())
         wt = norm(c["args"][0].get("t", ""))
         R.check("R16-d", "server-writer:%d" % i, "JsStringWriter" in wt, "printed into the escaping JsStringWriter",
                 "server schema is printed into `%s`, not the template-literal writer" % wt, loc=rg.loc())
@@ -315,9 +407,13 @@ def r16g(P, R):
                         "`%s` is rebuilt from the node's own `%s`" % (fld["name"], fld["name"]),
                         "%s rebuilds %s.%s from %s instead of the node's own `%s`: the printed schema no longer denotes the checked one"
                         % (f.path, adt.split("::")[-1], fld["name"], foreign or "other data", fld["name"]), loc=f.loc())
-        removed = sorted({x.get("v") for c in f.walk() if c.get("k") == "Binary" and c.get("op") in ("==", "!=") for x in subnodes(c) if x.get("k") == "Lit" and x.get("lk") == "str"})
-        R.check("R16-g", "removes-only-model", removed == ["model"], "only the `model` directive is filtered out",
-                "the transformation filters by names %s" % removed, loc=f.loc())
+        removed = sorted({x.get("v") for g in scope_fns(P, f) for c in g.walk() if c.get("k") == "Binary" and c.get("op") in ("==", "!=")
+                          for x in subnodes(c) if x.get("k") == "Lit" and x.get("lk") == "str"})
+        if removed:
+            R.check("R16-g", "removes-only-model", removed == ["model"], "only the `model` directive is filtered out",
+                    "the transformation filters by names %s" % removed, loc=f.loc())
+        else:
+            R.undecided("R16-g", "removes-only-model", "the transformation does not select what it removes by comparing names with literals", loc=f.loc())
         bad = [c["method"] for c in f.walk() if c.get("k") == "MethodCall" and c["method"] in (LOSSY_OR_REORDERING - {"filter"})]
         R.check("R16-g", "no-other-loss", not bad, "no truncating/reordering adaptor", "the transformation applies %s" % bad, loc=f.loc())
 
